@@ -345,20 +345,63 @@ def _bsp_census(tree: ast.Module) -> dict:
                     save = f
     if save is None:
         raise TranslateError('bsp.py: BSP.save not found')
-    withs = []
+    # every `with` inside save: what the context expression can evaluate to.  A plain name is resolved through all the
+    # assignments to it inside save (so `writer = AtomicWriter(..) if .. else open(..)` or an if/else assigning the
+    # name is seen as two constructors).  The generated list is judged by a kernel-checked obligation, not here.
+    assigns: dict[str, list[ast.expr]] = {}
     for node in ast.walk(save):
-        if isinstance(node, ast.With):
+        if isinstance(node, ast.Assign):
+            for t in node.targets:
+                if isinstance(t, ast.Name):
+                    assigns.setdefault(t.id, []).append(node.value)
+        elif isinstance(node, ast.AnnAssign) and isinstance(node.target, ast.Name) and node.value is not None:
+            assigns.setdefault(node.target.id, []).append(node.value)
+
+    def ctor_values(e: ast.expr, depth: int = 0) -> list[ast.expr]:
+        if depth > 4:
+            raise TranslateError('BSP.save: context expression of `with` is defined through too many aliases')
+        if isinstance(e, ast.IfExp):
+            return ctor_values(e.body, depth + 1) + ctor_values(e.orelse, depth + 1)
+        if isinstance(e, ast.Name):
+            if e.id not in assigns:
+                raise TranslateError(f'BSP.save: `with {e.id}`: no assignment to that name inside save')
+            return [v for a in assigns[e.id] for v in ctor_values(a, depth + 1)]
+        return [e]
+
+    def is_atomic_bytes(ce: ast.expr) -> bool:
+        if not (isinstance(ce, ast.Call) and isinstance(ce.func, ast.Name) and ce.func.id == 'AtomicWriter'):
+            return False
+        return any(k.arg == 'is_bytes' and isinstance(k.value, ast.Constant) and k.value.value is True
+                   for k in ce.keywords) or (len(ce.args) >= 2 and isinstance(ce.args[1], ast.Constant)
+                                             and ce.args[1].value is True)
+
+    # names used as output: receivers of .write()/.writelines() and arguments of DeferredWrites(...)
+    out_names: set[str] = set()
+    for node in ast.walk(save):
+        if isinstance(node, ast.Call):
+            if isinstance(node.func, ast.Attribute) and node.func.attr in ('write', 'writelines') \
+                    and isinstance(node.func.value, ast.Name):
+                out_names.add(node.func.value.id)
+            if isinstance(node.func, ast.Name) and node.func.id == 'DeferredWrites':
+                out_names |= {a.id for a in node.args if isinstance(a, ast.Name)}
+    withs = []          # (bound name, line) of every `with ... as name` whose name is used as output
+    ctors: list[list] = []     # [unparsed constructor, line, is AtomicWriter(..., is_bytes=True)]
+    for node in ast.walk(save):
+        if isinstance(node, (ast.With, ast.AsyncWith)):
             for item in node.items:
-                ce = item.context_expr
-                if isinstance(ce, ast.Call) and isinstance(ce.func, ast.Name) and ce.func.id == 'AtomicWriter':
-                    if not isinstance(item.optional_vars, ast.Name):
-                        raise TranslateError('BSP.save: AtomicWriter handle is not bound to a simple name')
-                    bytes_mode = any(k.arg == 'is_bytes' and isinstance(k.value, ast.Constant) and k.value.value is True
-                                     for k in ce.keywords) or (len(ce.args) >= 2 and isinstance(ce.args[1], ast.Constant) and ce.args[1].value is True)
-                    withs.append((item.optional_vars.id, node.lineno, bytes_mode))
-    if len(withs) != 1:
-        raise TranslateError(f'BSP.save: expected exactly one `with AtomicWriter(...) as name`, found {len(withs)}')
-    handle = withs[0][0]
+                if item.optional_vars is None:
+                    continue        # cannot be written to; a direct open() for writing is in the module-wide census
+                if not isinstance(item.optional_vars, ast.Name):
+                    raise TranslateError('BSP.save: `with ... as <target>`: target is not a simple name')
+                if item.optional_vars.id not in out_names:
+                    continue
+                for v in ctor_values(item.context_expr):
+                    ctors.append([ast.unparse(v)[:60].replace('"', "'"), node.lineno, is_atomic_bytes(v)])
+                withs.append((item.optional_vars.id, node.lineno))
+    if len({w[0] for w in withs}) > 1:
+        raise TranslateError(f'BSP.save: several different `with ... as name` output handles: {withs}')
+    handle = withs[0][0] if withs else '<none>'
+    handle_line = withs[0][1] if withs else 0
     locals_ok = {handle: 'handle'}
     for node in ast.walk(save):
         if isinstance(node, ast.Assign) and len(node.targets) == 1 and isinstance(node.targets[0], ast.Name) \
@@ -375,7 +418,8 @@ def _bsp_census(tree: ast.Module) -> dict:
             r = node.func.value
             kind = locals_ok.get(r.id) if isinstance(r, ast.Name) else None
             writes.append([ast.unparse(r), node.lineno, kind or 'unknown'])
-    return dict(fs_sites=fs_sites, handle=handle, handle_line=withs[0][1], bytes_mode=withs[0][2], writes=writes,
+    return dict(fs_sites=fs_sites, handle=handle, handle_line=handle_line, ctors=ctors,
+                bytes_mode=bool(ctors) and all(c[2] for c in ctors), writes=writes,
                 save_digest=ast_digest(save))
 
 
@@ -420,6 +464,9 @@ def translate() -> tuple[str, dict]:
         'Definition bsp_save_writes : list (string * bool) := [',
         ';\n'.join(f'  ("{r}@{ln}", {b(k != "unknown")})' for r, ln, k in bsp['writes']),
         '].',
+        '(* what the context expression of every `with` in BSP.save can be: (constructor, is AtomicWriter(.., is_bytes=True)) *)',
+        'Definition bsp_save_with_ctors : list (string * bool) := [' + '; '.join(
+            f'("{c}@{ln}", {b(ok)})' for c, ln, ok in bsp['ctors']) + '].',
         f'Definition bsp_save_handle_is_bytes : bool := {b(bsp["bytes_mode"])}.',
         '',
     ]
